@@ -29,13 +29,18 @@ def mk(meth, iters):
     ocp.subject_to(o.u <= 5)
     ocp.solver('ipopt', opts(iters))
     ocp.method({'MS': lambda: MultipleShooting(N=N, intg='rk'), 'SS': lambda: SingleShooting(N=N, intg='rk'),
-                'DC': lambda: DirectCollocation(N=N, degree=2)}[meth]())
+                'DC': lambda: DirectCollocation(N=N, M=2, degree=2)}[meth]())
     return o
+
+
+def ramp(g, n):
+    # a guess that differs from node to node
+    return [g + 0.5 * k for k in range(n)]
 
 
 def assign(o, d):
     o.ocp.set_value(o.p, d['p']); o.ocp.set_value(o.q, d['q'])
-    if d['gx'] != 0: o.ocp.set_initial(o.x, d['gx'])
+    if d['gx'] != 0: o.ocp.set_initial(o.x, ca.DM(ramp(d['gx'], N + 1)).T)
     if d['gu'] != 0: o.ocp.set_initial(o.u, d['gu'])
 
 
@@ -46,20 +51,21 @@ def results_of(o):
 def replay(rec):
     sc = rec['sc']; data = rec['data']
     args = sorted(sc['args'])
-    if sc['meth'] == 'SS' and 'gx' in args:
-        return {'results': [('C19.skip', 'inconclusive', 'SingleShooting has no node-state variables to pass as guesses')], 'error': None}
     try:
         a = quiet(mk, sc['meth'], sc['iters'])
         quiet(assign, a, sc['pre'])
         ocp = a.ocp
-        argexpr = {'p': lambda: ocp.value(a.p), 'q': lambda: ocp.value(a.q), 'gx': lambda: ocp.sample(a.x, grid='control')[1],
+        ss = sc['meth'] == 'SS'     # under SingleShooting only the initial state is a decision variable
+        argexpr = {'p': lambda: ocp.value(a.p), 'q': lambda: ocp.value(a.q),
+                   'gx': (lambda: ocp.value(ocp.at_t0(a.x))) if ss else (lambda: ocp.sample(a.x, grid='control')[1]),
                    'gu': lambda: ocp.sample(a.u, grid='control-')[1]}
         f = quiet(lambda: ocp.to_function('f', [argexpr[n]() for n in args], results_of(a)))
         # a later imperative change must not leak into the function object
         if sc['post'] == 'p': quiet(ocp.set_value, a.p, 3)
         elif sc['post'] == 'q': quiet(ocp.set_value, a.q, 3)
         elif sc['post'] == 'gx': quiet(ocp.set_initial, a.x, 3)
-        argval = {'p': lambda: sc['vals']['p'], 'q': lambda: sc['vals']['q'], 'gx': lambda: ca.DM.ones(1, N + 1) * sc['vals']['gx'],
+        argval = {'p': lambda: sc['vals']['p'], 'q': lambda: sc['vals']['q'],
+                  'gx': (lambda: ramp(sc['vals']['gx'], N + 1)[0]) if ss else (lambda: ca.DM(ramp(sc['vals']['gx'], N + 1)).T),
                   'gu': lambda: ca.DM.ones(1, N) * sc['vals']['gu']}
         ra = quiet(lambda: f(*[argval[n]() for n in args]))
         ra = [np.array(r).reshape(-1) for r in (ra if isinstance(ra, (list, tuple)) else [ra])]
